@@ -85,6 +85,106 @@ def replay_lm(case):
     return [{"container": "LayeredMapping", "cfg": case["cfg"], "hist": case["hist"], **b} for b in bad]
 
 
+# ------------------------------------------------------------------ LayeredMapping objects holding each other by reference
+def heap_config(i: int):
+    """mirror of MC_LayeredHeap!Configs: the list of objects, index = heap index - 1"""
+    from formulaic.utils.layered_mapping import LayeredMapping as LMp
+
+    if i == 1:
+        d = {"p": 10, "q": 20}
+        return [d, LMp(d)]
+    if i == 2:
+        d = {"p": 10, "q": 20}
+        return [d, LMp(d, name="base")]
+    if i == 3:
+        d = {"q": 20, "p": 10}
+        m = LMp(d)
+        m["s"] = 5
+        return [d, m]
+    return [LMp()]
+
+
+def replay_heap(case):
+    """The whole object graph is built by the history; every object (the old ones too) is read only after the last operation,
+    so a child that snapshotted its parent, a parent that wrote through to a supplied dict, ... all show up as a stale / foreign read."""
+    from formulaic.utils.layered_mapping import LayeredMapping as LMp
+
+    objs = heap_config(case["cfg"])
+    last = "init"
+    bad = []
+    for n, op in enumerate(case["hist"], 1):
+        o = objs[op["o"] - 1]
+        extra = {"q": 300 + n, "s": 400 + n}
+        # None layers are dropped by __filter_layers wherever they stand: interleaved on every other step
+        pad = (None,) if n % 2 else ()
+        try:
+            if op["op"] in ("set", "poke"):
+                o[op["k"]] = op["v"]
+            elif op["op"] == "del":
+                del o[op["k"]]
+            elif op["op"] == "derive":
+                objs.append(extra)
+                if op["mode"] == "ctor":
+                    objs.append(LMp(*pad, extra, *pad, o, name=op["name"] or None))
+                else:
+                    objs.append(o.with_layers(*pad, extra, *pad, prepend=op["mode"] == "prepend", name=op["name"] or None))
+                if objs[-1] is o:
+                    bad.append({"why": "deriving returned the parent itself", "step": n})
+            elif op["op"] == "join":
+                objs.append(LMp(o, *pad, objs[op["b"] - 1]))
+            elif op["op"] == "grow":
+                objs.append(extra)
+                if o.with_layers(extra, *pad, prepend=op["mode"] == "prepend", inplace=True) is not o:
+                    bad.append({"why": "with_layers(inplace=True) returned another object", "step": n})
+            last = "ok"
+        except KeyError:
+            last = "KeyError"
+        except Exception as e:  # noqa
+            last = "EXC:" + type(e).__name__
+    if last != case["last"]:
+        bad.append({"why": "result of last operation differs", "observed": last, "expected": case["last"]})
+    if len(objs) != len(case["objs"]):
+        bad.append({"why": "number of objects differs", "observed": len(objs), "expected": len(case["objs"])})
+    keys = ["p", "q", "s", "zz"]
+    for i, (x, e) in enumerate(zip(objs, case["objs"]), 1):
+        exp_items = [list(p) for p in e["items"]]
+        exp = dict(map(tuple, exp_items))
+
+        def chk(why, got, want):
+            if got != want:
+                bad.append({"why": why, "object": i, "given_layers": e["given"], "observed": got, "expected": want})
+
+        if e["kind"] == "dict":
+            chk("a plain dict differs from what its owner wrote", [[k, v] for k, v in x.items()] if isinstance(x, dict) else repr(x)[:80], exp_items)
+            continue
+        if not isinstance(x, LMp):
+            chk("not a LayeredMapping", repr(x)[:80], "LayeredMapping")
+            continue
+        chk("items() is not the top-first merge of the private layer and the layers given", _try_lm(lambda: [[k, v] for k, v in x.items()]), exp_items)
+        chk("iteration", _try_lm(lambda: list(x)), [k for k, _ in exp_items])
+        chk("len", _try_lm(lambda: len(x)), e["len"])
+        chk("private layer", [[k, v] for k, v in x._mutations.items()], [list(p) for p in e["mut"]])
+        chk("name", x.name or "", e["name"])
+        for k in keys:
+            chk(f"contains({k})", _try_lm(lambda: k in x), k in exp)
+            chk(f"getitem({k})", _try_lm(lambda: x[k]), exp.get(k, "KeyError"))
+            chk(f"get({k})", _try_lm(lambda: x.get(k, "KeyError")), exp.get(k, "KeyError"))
+    return [{"container": "LayeredMapping", "cfg": case["cfg"], "hist": [_short(h) for h in case["hist"]], **b} for b in bad]
+
+
+def _try_lm(fn):
+    try:
+        return fn()
+    except KeyError:
+        return "KeyError"
+    except Exception as e:  # noqa
+        return "EXC:" + type(e).__name__
+
+
+def _short(h):
+    return {k: v for k, v in h.items() if v not in ("", 0) or k in ("op", "o")}
+
+
 def mk_term(name: str):
     from formulaic.parser.types import Factor, Term
 
@@ -145,10 +245,10 @@ def replay_fs(case):
     return [{"container": "SimpleFormula", "ordering": mode, "start": case["start"], "hist": case["hist"], **b} for b in bad]
 
 
-def _leg(ctx: Ctx, module: str, fn: str, maxops: int, props: str, what: str):
+def _leg(ctx: Ctx, module: str, fn: str, maxops: int, props: str, what: str, consts: str = "", deep: int = 8, num: int | None = None):
     out = workdir("c19") / f"{module}.ndjson"
     out.unlink(missing_ok=True)
-    cfg = f"SPECIFICATION Spec\nCONSTANTS\n  MaxOps = {maxops}\n  Emit = TRUE\n{props}INVARIANT EmitCase\n"
+    cfg = f"SPECIFICATION Spec\nCONSTANTS\n  MaxOps = {maxops}\n  Emit = TRUE\n{consts}{props}INVARIANT EmitCase\n"
     r = run_tlc(module, cfg, tag="c19", env={"OUT_FILE": str(out)}, timeout=3000)
     if r.violated:
         ctx.model_violation(r, module)
@@ -167,8 +267,7 @@ def _leg(ctx: Ctx, module: str, fn: str, maxops: int, props: str, what: str):
     # deep histories: random behaviours of the same specification (tlc -simulate)
     from ..tlc import simulate_emitted
 
-    deep = 8
-    sr, srecs = simulate_emitted(module, cfg.replace(f"MaxOps = {maxops}", f"MaxOps = {deep}"), "c19s", num=60 if ctx.quick else 1000, depth=deep + 2, seed=ctx.seed + 1)
+    sr, srecs = simulate_emitted(module, cfg.replace(f"MaxOps = {maxops}", f"MaxOps = {deep}"), "c19s", num=num or (60 if ctx.quick else 1000), depth=deep + 2, seed=ctx.seed + 1)
     if sr.violated:
         ctx.model_violation(sr, module + " (simulation)")
     seen = set()
@@ -192,5 +291,18 @@ def _leg(ctx: Ctx, module: str, fn: str, maxops: int, props: str, what: str):
 def run(ctx: Ctx) -> None:
     _leg(ctx, "MC_LayeredMapping", "replay_lm", 3 if ctx.quick else 4, "INVARIANT Laws\nPROPERTY FrameLaw\n",
          "LayeredMapping: top-first merge, length/iteration/lookup consistency, source names, frame law (supplied layers never written)")
+    # layers are references, not values: the object graph (children derived from / joined with mappings that are written to, grown in
+    # place or whose plain dicts change afterwards).  Exhaustive to 2 (quick) / 3 operations - the heap grows by up to two objects per
+    # operation, so 3 operations are already 69 k graphs - and random graphs of <= 5 operations beyond that.
+    heap_consts = '  Variant = "code"\n'
+    heap_max = 2 if ctx.quick else 3
+    _leg(ctx, "MC_LayeredHeap", "replay_heap", heap_max, "INVARIANT Laws\nPROPERTY FrameLaw\n",
+         "LayeredMapping objects holding each other by reference: every mapping is the top-first merge of its private layer and of what the layers "
+         "it was given hold when it is read; an operation changes only the object it is applied to", consts=heap_consts, deep=5, num=40 if ctx.quick else 600)
+    # the merge law is not vacuous on the bounded graphs: TLC refutes the design in which __filter_layers splices (snapshots) nested mappings
+    v = run_tlc("MC_LayeredHeap", f"SPECIFICATION Spec\nCONSTANTS\n  MaxOps = {heap_max}\n  Emit = FALSE\n  Variant = \"splice\"\nINVARIANT Laws\nINVARIANT EmitCase\n", tag="c19", timeout=3000)
+    if "Laws" not in v.violated:
+        raise MachineryError("MC_LayeredHeap variant splice does not violate the merge law: the bounded model is vacuous")
+    ctx.notes["layered_heap_variant_splice"] = "violates " + ",".join(v.violated)
     _leg(ctx, "MC_FormulaSeq", "replay_fs", 2 if ctx.quick else 3, "INVARIANT OrderingInvariant\nPROPERTY MultisetLaw\nPROPERTY ListLaw\n",
          "SimpleFormula as a sequence under the ordering modes none/degree/sort: ordering invariant, multiset law and list law after every operation")
